@@ -613,7 +613,10 @@ class Prog:
                             "harness_error": "TermError: %s" % t.exc}
                 viols.append({"oracle": "exception", "sig": "exception:" + type(t.exc).__name__,
                               "msg": "%s died: %s" % (t.name, (t.tb or "")[-600:]), "seq": sim.seq})
-        faults = {"preemptions": max(0, sim.switches - len(sim.threads))}
+        faults = {"preemptions": max(0, sim.switches - len(sim.threads)),
+                  "file_write_refused": self.file.io_errors["write"], "file_flush_failed_after_write": self.file.io_errors["flush"],
+                  "print_renderable_raised": self.probes.get("failed_prints", 0),
+                  "capture_left_by_exception": self.probes.get("captures_left_by_exception", 0)}
         nontrivial = any(len(th) > 0 for th in self.case["threads"])
         return {"violations": viols, "faults": faults, "probes": dict(self.probes), "nontrivial": nontrivial,
                 "sample": {"cfg": self.cfg, "threads": [th[:6] for th in self.case["threads"]]}}
